@@ -83,19 +83,22 @@ def gen_value(ch: Any, sb: dict[str, Any], live: list[dict[str, Any]]) -> float:
 
 
 def gen_proposal(ch: Any, actor: dict[str, Any], sb: dict[str, Any], live: list[dict[str, Any]], now: float,
-                 *, compatible_only: bool = False) -> dict[str, Any]:
+                 *, compatible_only: bool = False, inverted: bool = False) -> dict[str, Any]:
     pk = ch.weighted("prop_kind", [6, 2, 3, 1])  # pref only / bounds only / both / neither
     pref = gen_value(ch, sb, live) if pk in (0, 2) else None
     lower = upper = None
     if pk in (1, 2):
-        bk = ch.weighted("bounds_kind", [3, 1, 1])
+        bk = ch.weighted("bounds_kind", [3, 1, 1, 1] if inverted else [3, 1, 1])
         a, b = gen_value(ch, sb, live), gen_value(ch, sb, live)
         if bk == 0:
             lower, upper = min(a, b), max(a, b)
         elif bk == 1:
             lower = a
-        else:
+        elif bk == 2:
             upper = a
+        else:
+            # bounds incompatible with themselves (lower above upper): constructible, and inside C03's quantifier
+            lower, upper = max(a, b), min(a, b)
     return {"actor": actor["name"], "prio": actor["prio"], "op": actor.get("op", False), "pref": pref,
             "lower": lower, "upper": upper, "t": now}
 
